@@ -129,6 +129,11 @@ func findHarnessFiles(prop string) map[string][]string {
 		}
 		return nil
 	})
+	// shared helper files of the directories that have a harness for this property
+	for rel := range out {
+		cs, _ := filepath.Glob(filepath.Join(root, rel, "zz_verif_common*.go"))
+		out[rel] = append(out[rel], cs...)
+	}
 	return out
 }
 
